@@ -44,7 +44,7 @@ VALID_OPS = [
 ]
 INVALID_OPS = [
     "bad_points_shape", "bad_dm_asym", "bad_esp_threshold", "bad_notation", "bad_backend", "bad_direct_order3", "bad_ct_len",
-    "bad_density_threshold", "bad_zero_charge_on_point", "bad_orders_negative", "bad_transform_shape", "bad_atom", "bad_file",
+    "bad_density_threshold", "bad_zero_charge_on_point", "bad_orders_negative", "bad_transform_shape", "bad_atom", "bad_atom_case", "bad_file",
     "bad_moment_orders", "bad_sph_labels",
 ]
 UPDATE_OPS = ["upd_coeffs", "upd_exps", "upd_coord", "upd_exps_inplace", "upd_coeffs_inplace", "upd_coord_inplace", "upd_bad_coeffs", "upd_bad_exps", "upd_scramble_returned"]
@@ -167,6 +167,7 @@ def make_pool(case, files):
         "dmT": None,
         "ct": ["cartesian", "p"] * 8,
         "atoms": ["H", "He", "H"],
+        "atoms_case": ["H", "HE", "h"],  # labels the dictionary does not hold (whatever the call does, the list stays as it is)
         "coords": rng.normal(size=(3, 3)),
         "bd": {"H": [(0, np.array([1.3, 0.4]), np.array([[0.5], [0.7]])), (1, np.array([0.9]), np.array([[1.0]]))],
                "He": [(0, np.array([2.0, 0.5]), np.array([[0.3, 1.0], [0.8, -0.2]]))]},
@@ -267,6 +268,7 @@ def op_call(name, P, o):
         "bad_orders_negative": lambda: evaluate_deriv_basis(b, P["pts"], np.array([0, -1, 0])),
         "bad_transform_shape": lambda: kinetic_energy_integral(b, transform=P["T_bad"]),
         "bad_atom": lambda: make_contractions(P["bd"], ["H", "Xx"], P["coords"][:2], "cartesian"),
+        "bad_atom_case": lambda: make_contractions(P["bd"], P["atoms_case"], P["coords"], "cartesian"),
         "bad_file": lambda: parse_nwchem(P["files"]["nwchem"] + ".missing"),
         "bad_moment_orders": lambda: moment_integral(b, P["origin"], np.array([[0, -1, 0]])),
         "bad_sph_labels": lambda: generate_transformation(1, np.array([[1, 0, 0], [0, 1, 0], [0, 0, 1]]), ("c1", "c1", "c0"), "left"),
